@@ -716,4 +716,65 @@ theorem optTruthy_real (d : Option ℝ) : optTruthy d = true ↔ ∃ g, d = some
   | none => simp [optTruthy]
   | some g => simp [optTruthy, truthy_real]
 
+/-! ## The robust loss -/
+
+theorem half_lit : (0.5 : ℝ) = 1 / 2 := by norm_num
+
+theorem lloss_cons (psd : ℝ → ℝ) (n f p : ℝ) (fs ps : List ℝ) :
+    lorentzianLoss psd n (f :: fs) (p :: ps)
+      = Real.log (1 + 1 / 2 * ((p - psd f) / (psd f / Real.sqrt n)) ^ 2) + lorentzianLoss psd n fs ps := by
+  simp only [lorentzianLoss, RealLike.sqrt, RealLike.log, one_lit, half_lit]; ring_nf
+
+theorem lloss_term_nonneg (x : ℝ) : 0 ≤ Real.log (1 + 1 / 2 * x ^ 2) :=
+  Real.log_nonneg (by nlinarith [sq_nonneg x])
+
+theorem lloss_term_zero (x : ℝ) : Real.log (1 + 1 / 2 * x ^ 2) = 0 ↔ x = 0 := by
+  constructor
+  · intro h
+    have hpos : (0:ℝ) < 1 + 1 / 2 * x ^ 2 := by nlinarith [sq_nonneg x]
+    have := Real.eq_one_of_pos_of_log_eq_zero hpos h
+    have hx : x ^ 2 = 0 := by linarith
+    exact pow_eq_zero_iff (n := 2) (by norm_num) |>.mp hx
+  · rintro rfl; simp
+
+theorem lloss_nonneg' (psd : ℝ → ℝ) (n : ℝ) : ∀ fs ps : List ℝ, 0 ≤ lorentzianLoss psd n fs ps
+  | [], _ => by simp [lorentzianLoss, zero_lit]
+  | _ :: _, [] => by simp [lorentzianLoss, zero_lit]
+  | f :: fs, p :: ps => by
+    rw [lloss_cons]
+    exact add_nonneg (lloss_term_nonneg _) (lloss_nonneg' psd n fs ps)
+
+theorem lloss_zero_iff' (psd : ℝ → ℝ) (n : ℝ) (hn : 0 < n) (fs ps : List ℝ)
+    (hp : ∀ x ∈ fs.zip ps, psd x.1 ≠ 0) :
+    lorentzianLoss psd n fs ps = 0 ↔ ∀ x ∈ fs.zip ps, psd x.1 = x.2 := by
+  induction fs generalizing ps with
+  | nil => simp [lorentzianLoss, zero_lit]
+  | cons f fs ih =>
+    cases ps with
+    | nil => simp [lorentzianLoss, zero_lit]
+    | cons p ps =>
+      rw [lloss_cons]
+      have hf0 : psd f ≠ 0 := hp (f, p) (by simp)
+      have hps : ∀ x ∈ fs.zip ps, psd x.1 ≠ 0 := fun x hx => hp x (by simp [hx])
+      have hg : psd f / Real.sqrt n ≠ 0 := div_ne_zero hf0 (Real.sqrt_pos.mpr hn).ne'
+      have h1 := lloss_nonneg' psd n fs ps
+      have h2 := lloss_term_nonneg ((p - psd f) / (psd f / Real.sqrt n))
+      constructor
+      · intro h
+        have e1 : Real.log (1 + 1 / 2 * ((p - psd f) / (psd f / Real.sqrt n)) ^ 2) = 0 := by linarith
+        have e2 : lorentzianLoss psd n fs ps = 0 := by linarith
+        have e3 : p - psd f = 0 := by
+          rcases div_eq_zero_iff.mp ((lloss_term_zero _).mp e1) with h | h
+          · exact h
+          · exact absurd h hg
+        intro x hx
+        simp only [List.zip_cons_cons, List.mem_cons] at hx
+        rcases hx with rfl | hx
+        · exact (sub_eq_zero.mp e3).symm
+        · exact (ih ps hps).mp e2 x hx
+      · intro h
+        have e3 : psd f = p := h (f, p) (by simp)
+        have e2 : lorentzianLoss psd n fs ps = 0 := (ih ps hps).mpr fun x hx => h x (by simp [hx])
+        rw [e2, e3]; simp
+
 end Verif.C11
